@@ -45,10 +45,11 @@ bool Parser_next(Parser *self) __CPROVER_requires(0) __CPROVER_assigns() __CPROV
   __CPROVER_loop_invariant(XML_CUR_INV(self) && self->_cur >= __CPROVER_loop_entry(self->_cur) && self->_cur <= pos + endSeq.n) \
   __CPROVER_decreases(pos + endSeq.n - self->_cur))
 
-/* readQuotedValue: no closing quote inside the scanned range */
+/* readQuotedValue: no byte of the scanned range equals the OPENING delimiter = the input byte at start-1 (consumed by the advance() before
+ * `start = _cur`), i.e. the byte under the entry cursor = ghost GOC. Stated over the input, not over the function's temporary that holds it. */
 #define IORA_LOOP_Parser_readQuotedValue_1 IORA_LC( XML_CUR_FRAME \
-  __CPROVER_loop_invariant(XML_CUR_INV(self) && self->_cur >= start) \
-  __CPROVER_loop_invariant((GS >= start && GS < self->_cur) ==> GSC != quote) \
+  __CPROVER_loop_invariant(XML_CUR_INV(self) && self->_cur >= start && start >= 1 && GOC == XML_AT(self, start - 1)) \
+  __CPROVER_loop_invariant((GS >= start && GS < self->_cur) ==> GSC != GOC) \
   __CPROVER_decreases(self->_input.n - self->_cur))
 
 /* readText: span limit tested BEFORE each step; no '<' inside; at least one byte is taken (or the limit is 0) */
